@@ -75,3 +75,7 @@ MANIFEST_ENTRY = dict(
     note='Queues are models (stated contract); real thread timing and the 10-line worker loop are outside; bound n is small because the number of '
          'permutations grows as n!.',
 )
+
+# --- manifest text refreshed after rounds 6-8 (obligations added since the entry above was written)
+MANIFEST_ENTRY['text'] = MANIFEST_ENTRY['text'] + ' starmap returns one result per argument tuple; a forced shutdown drains both queues and tolerates a worker taking the last task between empty() and get().'
+META['assumptions'] = list(META.get('assumptions', [])) + ['forced-drain obligation: queue model whose get(block=False) raises queue.Empty at a chosen step although empty() was false (a worker was faster)']
